@@ -44,7 +44,8 @@ def select__node_kind_test(self: XPathFunction, context: ta.ContextType = None) 
 
     for item in context.iter_children_or_self():
         if isinstance(item, XPathNode):
-            if not isinstance(item, DocumentNode) or item is context.root:
+            # only the dummy document of an element-rooted context is not a node of the tree
+            if item is not context.document or item is context.root:
                 yield item
 
 
